@@ -62,6 +62,18 @@ def gen_cases(seed, tier):
         # every fourth manifest is one another producer may have written: non-zero packGroup in every pack info (a
         # checked byte the library's creator leaves at 0), digest and CRCs recomputed by the harness
         cases.append(dict(id="m%d" % i, pkg=pkg, comp=comp, n=nent, extra=extra, seed=rng.randint(1, 10**6), ops=ops, groups=(i % 4 == 2)))
+    # a manifest of more than 64 KiB (272 pack descriptions): the checksum stream is read in 64 KiB chunks, so one
+    # description straddles a chunk boundary; the packs around that boundary are rewritten, then restored
+    if True:
+        extra = 270
+        ops = []
+        around = list(range(205, 228)) + [1]
+        for k in around:
+            ops.append((str(k), rand_loc(rng).hex() or "-"))
+        for k in around:
+            ops.append((str(k), "orig"))
+        # judged on the real files only: the list-based model needs minutes per rewrite on 272 descriptions
+        cases.append(dict(id="mbig", pkg="two", comp="none", n=2, extra=extra, seed=rng.randint(1, 10**6), ops=ops, groups=False, nomodel=True))
     return cases
 
 
@@ -117,6 +129,8 @@ def run(tier, seed, replay=None):
     R = C.read_obs(rust_out)
     with open(mcases, "w") as f:
         for c in cases:
+            if c.get("nomodel") or c["extra"] > 50:
+                continue
             f.write("case %s manifest\n" % c["id"])
             for l in R.get(c["id"], []):
                 if l.startswith("@model "):
@@ -188,6 +202,9 @@ def run(tier, seed, replay=None):
                 bad = "after restoring every location the file differs from the initial file"
         if bad:
             res.violation("C12 oracle: %s (case %s)" % (bad, c["id"]), case_text(c, seed) + "# " + bad + "\n")
+        if c.get("nomodel") or c["extra"] > 50:
+            nontrivial.add((c["pkg"], c["comp"], c["extra"], c["n"], tuple(c["ops"])))
+            continue
         rr = [l for l in r if " @oracle" not in l and not l.split(" ", 2)[1].startswith("@") and " dump " not in " " + l]
         mm = [l for l in m if l.split(" ")[1] not in ("view", "layout")]
         if "0 layout true" not in m and not bad:
